@@ -117,7 +117,7 @@ fn mkdos3x(vol: Option<&String>,boot: bool,img: Box<dyn DiskImage>) -> Result<Ve
         return Err(Box::new(CommandError::InvalidCommand));
     }
     match u8::from_str_radix(vol.unwrap(), 10) {
-        Ok(v) if v>=1 || v<=254 => {
+        Ok(v) if v>=1 && v<=254 => {
             if boot && v!=254 {
                 error!("we can only add the boot tracks if volume number is 254");
                 return Err(Box::new(CommandError::UnsupportedItemType));
